@@ -376,6 +376,12 @@ class C12(runner.Check):
 			case["chunks"] = [0, s.choice([1, 2])]
 			case["fasta"] = {"width": r.choice([7, 60, 1000]), "lower": r.chance(0.4),
 				"desc": r.chance(0.3)}
+			a_ = S("alphabet")
+			if a_.chance(0.25):
+				# the caller's matrices list the bases in another (reverse-complement
+				# symmetric) order: the same world written with other letters
+				case["fasta"]["alphabet"] = a_.choice(["TGCA", "CATG", "GTAC", "AGCT",
+					"CTAG", "GATC", "TCGA"])
 			case["xkind"] = r.wchoice(["float32", "int8", "float64", "numpy", "strided"],
 				[4, 2, 1, 1, 1])
 		return case
@@ -615,7 +621,13 @@ class C12(runner.Check):
 		pool = ["chr10", "chr2", "chr1", "chrX", "seqB", "seqA", "chr21", "chr3"]
 		names = pool[:len(world["seqs"])] if case["fasta"].get("unsorted_names", True) \
 			else ["chr%d" % i for i in range(len(world["seqs"]))]
-		seqs_file = [s.lower() if (case["fasta"]["lower"] and i % 2 == 0) else s
+		alpha = case["fasta"].get("alphabet")
+		akw = {"alphabet": list(alpha)} if alpha else {}
+		tr = (lambda s_: s_.translate(str.maketrans("ACGT", alpha))) if alpha else \
+			(lambda s_: s_)
+		if alpha:
+			out.bump("real.fasta_with_non_default_alphabet")
+		seqs_file = [tr(s).lower() if (case["fasta"]["lower"] and i % 2 == 0) else tr(s)
 			for i, s in enumerate(world["seqs"])]
 		genome.write_fasta(fa, list(zip(names, seqs_file)), width=case["fasta"]["width"],
 			descriptions=bool(case["fasta"].get("desc")))
@@ -632,7 +644,7 @@ class C12(runner.Check):
 					where = "compiled fimo (threads=%d, chunk=%d, FASTA+MEME)" % (nj, ch)
 					try:
 						with numpy.errstate(all="ignore"):
-							res = self.fm.fimo(mm, fa, **cfg)
+							res = self.fm.fimo(mm, fa, **akw, **cfg)
 					except Exception as e:
 						out.violate("raised", "%s raised %s: %s" % (where, type(e).__name__,
 							str(e)[:200]), key=type(e).__name__)
@@ -667,13 +679,13 @@ class C12(runner.Check):
 				w2 = case["world2"]
 				genome.write_meme(mm, [(m["name"], m["pwm"]) for m in w2["motifs"]])
 				if w2.get("regenerated_fasta"):
-					genome.write_fasta(fa, list(zip(names, w2["seqs"])), width=
+					genome.write_fasta(fa, list(zip(names, [tr(s_) for s_ in w2["seqs"]])), width=
 						case["fasta"]["width"] + 3, keep_index=True)
 					seq_lens = [len(s_) for s_ in w2["seqs"]]
 					out.bump("probe.second_scan_regenerated_fasta_same_path")
 				try:
 					with numpy.errstate(all="ignore"):
-						res = self.fm.fimo(mm, fa, **w2["cfg"])
+						res = self.fm.fimo(mm, fa, **akw, **w2["cfg"])
 					got2, dup = hits_to_set(res, names)
 					log.log("second", sorted(got2.items()))
 					out.bump("probe.second_scan_same_names_other_values")
@@ -700,9 +712,11 @@ class C12(runner.Check):
 	def _real_variants(self, out, case, world, cfg, md, fa, mm, names, first,
 		seq_lens, log):
 		fm = self.fm
+		alpha = case["fasta"].get("alphabet")
+		akw = {"alphabet": list(alpha)} if alpha else {}
 		# return_counts and dim=1 on the file backend
 		try:
-			counts = fm.fimo(mm, fa, return_counts=True, **cfg)
+			counts = fm.fimo(mm, fa, return_counts=True, **akw, **cfg)
 			want = [0] * len(world["motifs"])
 			for k in first:
 				want[k[0]] += 1
@@ -710,7 +724,7 @@ class C12(runner.Check):
 				out.violate("counts_differ", "return_counts gives %r, the hit DataFrames "
 					"contain %r" % (list(map(int, counts)), want), key="counts")
 				return
-			res1 = fm.fimo(mm, fa, dim=1, **cfg) if first else None
+			res1 = fm.fimo(mm, fa, dim=1, **akw, **cfg) if first else None
 			if res1 is not None and not self._check_dim1(out, res1, first,
 					"compiled fimo (FASTA+MEME)", names):
 				return
